@@ -17,6 +17,7 @@
 package oauth2
 
 import (
+	"math"
 	"strconv"
 	"time"
 
@@ -38,6 +39,10 @@ func (n *NumericDate) UnmarshalJSON(b []byte) error {
 	f, err := strconv.ParseFloat(stringx.ToString(b), floatPrecision)
 	if err != nil {
 		return errorchain.NewWithMessage(heimdall.ErrConfiguration, "failed to parse date").CausedBy(err)
+	}
+
+	if math.IsNaN(f) || f >= math.MaxInt64 || f <= math.MinInt64 {
+		return errorchain.NewWithMessage(heimdall.ErrConfiguration, "date is out of range")
 	}
 
 	*n = NumericDate(f)
